@@ -12,7 +12,7 @@ CONSTANTS
   Proofs = {"ok"}
   Signers = {"relayer"}
   Funds = 1000
-  Fees = {0, 1}
+  Fees = {0}
   WithRotate = FALSE
   SendFrom <- OneWay
 INVARIANTS TypeOK Conservation Exclusive WrappedBacked MarksExact ReceivedWasSent SeqAgree NoGap CommitIsSent OneAckPerReceipt StatusMatchesAck FeesHeld
